@@ -1,7 +1,7 @@
 (* C08 -- concurrent Run calls on one Engine: race-free lock protocol, linearizable type cache, per-run confinement.
    Props file: statements only; proofs are in RG.Locks.* (generic) and Inst_Locks.v (about the regenerated tables). *)
 From Coq Require Import List NArith String Bool.
-From RG.Locks Require Import Model Sites Cache Confine Progress Frozen.
+From RG.Locks Require Import Model Sites Cache Confine Progress Frozen Front.
 From RGW Require Import Gen_Locks Inst_Locks.
 Import ListNotations.
 Local Open Scope N_scope.
@@ -129,6 +129,50 @@ Proof.
 Qed.
 Print Assumptions run_arguments_read_only.
 
+(* ---------------------------------------------------------------- the natives (bound once per engine, shared by all runs) *)
+Theorem natives_are_loadtime_objects : forall n, In n gen_native_impls -> In n gen_loadtime_types.
+Proof.
+  pose proof Inst_Locks.native_impls_are_loadtime as H. apply andb_prop in H. destruct H as [H _].
+  rewrite forallb_forall in H. intros n Hn. apply str_in_In. exact (H n Hn).
+Qed.
+Print Assumptions natives_are_loadtime_objects.
+
+(* ... hence never written by code that runs during Run *)
+Theorem native_structs_never_written : forall w, In w gen_run_writes -> ~ In (snd (fst w)) gen_native_impls.
+Proof. intros w Hw Hn. exact (loadtime_objects_read_only w Hw (natives_are_loadtime_objects _ Hn)). Qed.
+Print Assumptions native_structs_never_written.
+
+Theorem natives_stateless :
+  forall n, In n gen_native_impls ->
+    exists fs, In (n, fs) gen_structs /\ forall f, In f fs -> snd f = "*engineState"%string.
+Proof.
+  pose proof Inst_Locks.natives_stateless as H. rewrite forallb_forall in H. intros n Hn. specialize (H n Hn).
+  destruct (find (fun e : string * list (string * string) => String.eqb (fst e) n) gen_structs) as [[m fs]|] eqn:F; [|discriminate].
+  apply find_some in F. destruct F as [Fin Fe]. cbn in Fe. apply String.eqb_eq in Fe. subst m.
+  exists fs. split; [exact Fin|]. intros f Hf. cbn in H. rewrite forallb_forall in H. apply String.eqb_eq. exact (H f Hf).
+Qed.
+Print Assumptions natives_stateless.
+
+Theorem no_lock_copied : gen_lock_copies = [].
+Proof. exact Inst_Locks.no_lock_copied. Qed.
+Print Assumptions no_lock_copied.
+
+(* generic: a table keyed by the name alone in front of a lookup whose answer depends on the calling package is
+   invisible iff the answers are context-free; otherwise two calls suffice to show it, and their order matters *)
+Theorem front_sound_if_context_free :
+  forall (key val ctx : Type) (key_eqb : key -> key -> bool), (forall a b, reflect (a = b) (key_eqb a b)) ->
+  forall answer : ctx -> key -> option val, (forall p q k, answer p k = answer q k) ->
+  forall ops, run_front key_eqb answer [] ops = lone_answers answer ops.
+Proof. intros key val ctx key_eqb H. exact (Front.front_sound_if_context_free key val ctx key_eqb H). Qed.
+Print Assumptions front_sound_if_context_free.
+
+Theorem front_unsound_if_contexts_disagree :
+  forall (key val ctx : Type) (key_eqb : key -> key -> bool), (forall a b, reflect (a = b) (key_eqb a b)) ->
+  forall (answer : ctx -> key -> option val) p q k v w, answer p k = Some v -> answer q k = Some w -> v <> w ->
+    run_front key_eqb answer [] [(p, k); (q, k)] <> lone_answers answer [(p, k); (q, k)].
+Proof. intros key val ctx key_eqb H. exact (Front.front_unsound_if_contexts_disagree key val ctx key_eqb H). Qed.
+Print Assumptions front_unsound_if_contexts_disagree.
+
 (* ---------------------------------------------------------------- the hypotheses are satisfiable, the notions not vacuous *)
 Example guard_ex (f : field) : fclass := if N.eqb f 0 then Guarded 7 else Frozen.
 
@@ -209,6 +253,15 @@ Theorem history_independent :
     forall c0 ops, fst (run_dep key_eqb oracle dep c0 ops) = map (lone key_eqb oracle dep c0) ops.
 Proof. intros key val ctx key_eqb H. exact (Cache.history_independent key val ctx key_eqb H). Qed.
 Print Assumptions history_independent.
+
+(* two packages whose dependencies resolve one import path differently: each gets its own answer, in any order, and
+   nothing is remembered engine-wide -- while a name-keyed table in front of the same lookup serves the first answer to both *)
+Example conflicting_dependencies_answered_per_package :
+  let imp := fun k : N => @None N in
+  let dep := fun (p : N) (k : N) => if N.eqb k 7 then Some (Some (10 + p)) else None in
+  run_dep N.eqb imp dep [] [(1, 7); (2, 7); (1, 7); (3, 7)] = ([Some 11; Some 12; Some 11; Some 13], [])
+  /\ run_front N.eqb (fun p k => lone N.eqb imp dep [] (p, k)) [] [(1, 7); (2, 7); (1, 7); (3, 7)] = [Some 11; Some 11; Some 11; Some 11].
+Proof. split; reflexivity. Qed.
 
 (* a name only the dependencies of some packages resolve: answered for them, an error for the others, whatever the order *)
 Example dependency_answers_are_not_cached :
